@@ -2837,7 +2837,10 @@ where
     /// Return `true` if the given `address` is within this row's address range,
     /// `false` otherwise.
     pub fn contains(&self, address: u64) -> bool {
-        self.start_address <= address && address < self.end_address
+        // The end address wraps to a smaller value for a row that ends at the top
+        // of the address space.
+        self.start_address <= address
+            && (address < self.end_address || self.end_address < self.start_address)
     }
 
     /// Returns the amount of args currently on the stack.
